@@ -206,7 +206,10 @@ class ImageTransformer(SpatialTransformer):
     ) -> Union[Tensor, Tuple[Tensor, Tensor], Dict[str, Union[Tensor, Grid]]]:
         r"""Sample batch of images at spatially transformed target grid points."""
         grid: Tensor = self.grid_coords
-        grid = self._transform(grid, grid=True)
+        # Resizing of vector fields (grid=True) requires that target grid points are grid points of the transform domain
+        transform = self._transform
+        target_domain = self._target_grid.align_corners(transform.align_corners())
+        grid = transform(grid, grid=target_domain.same_domain_as(transform.grid()))
         if self._flip_coords:
             grid = grid.flip((-1,))
         return self._sample(grid, data, mask)
